@@ -70,6 +70,16 @@ class ValueModel:
             raise Unsupported(f"len() of {recv.name}")
         return recv.width
 
+    def __getattr__(self, name):
+        # any other method of a value (.any(), .all(), .bool(), .replicate(n), .word_select(i, w), ...): recorded as an operator
+        if name.startswith("call_"):
+            op = name[len("call_"):]
+
+            def call(ex, recv, args, kwargs, q, node):
+                return [(self.wrap(Expr("method", op, (recv.expr,) + tuple(self.operand(ex, a, node) for a in args))), q)]
+            return call
+        raise AttributeError(name)
+
 
 class DomainModel:
     def __init__(self, log, which):
